@@ -74,6 +74,31 @@ Fixpoint dedup_first {A : Type} (eqb : A -> A -> bool) (seen : list A) (l : list
                else x :: dedup_first eqb (x :: seen) l'
   end.
 
+(* resolveUsersets: every child is resolved; any error fails the node (all children of one node
+   can only fail with the same class) *)
+Section KidsOf.
+  Variable f : rewrite -> xres.
+  Fixpoint kids_of (l : list rewrite) : xerr + list tree :=
+    match l with
+    | [] => inr []
+    | x :: l' => match f x, kids_of l' with
+                 | XErr e, _ => inl e
+                 | XTree _, inl e => inl e
+                 | XTree t, inr ts => inr (t :: ts)
+                 end
+    end.
+End KidsOf.
+
+Section KidsCheck.
+  Variable f : rewrite -> tree -> bool.
+  Fixpoint kids_check (l : list rewrite) (ts : list tree) : bool :=
+    match l, ts with
+    | [], [] => true
+    | x :: l', t :: ts' => f x t && kids_check l' ts'
+    | _, _ => false
+    end.
+End KidsCheck.
+
 Section Expand.
   Variable leb : subject -> subject -> bool.     (* order of the user strings (slices.Sort) *)
   Variable m : model.
@@ -107,15 +132,6 @@ Section Expand.
     Variable r : rid.
 
     Fixpoint expand_rw (rw : rewrite) : xres :=
-      let kids := fix kids (l : list rewrite) : xerr + list tree :=
-        match l with
-        | [] => inr []
-        | x :: l' => match expand_rw x, kids l' with
-                     | XErr e, _ => inl e
-                     | XTree _, inl e => inl e
-                     | XTree t, inr ts => inr (t :: ts)
-                     end
-        end in
       match rw with
       | This => XTree (TUsers (o, r) (this_users all o r))
       | Computed r' => XTree (TComputed (o, r) (o, r'))
@@ -123,8 +139,8 @@ Section Expand.
           if rel_defined m (otype o) ts
           then XTree (TTupleToUserset (o, r) (o, ts) (ttu_computed all o ts c))
           else XErr ERelationNotFound
-      | Union l => match kids l with inr ts => XTree (TUnion (o, r) ts) | inl e => XErr e end
-      | Inter l => match kids l with inr ts => XTree (TInter (o, r) ts) | inl e => XErr e end
+      | Union l => match kids_of expand_rw l with inr ts => XTree (TUnion (o, r) ts) | inl e => XErr e end
+      | Inter l => match kids_of expand_rw l with inr ts => XTree (TInter (o, r) ts) | inl e => XErr e end
       | Diff b s => match expand_rw b, expand_rw s with
                     | XErr e, _ => XErr e
                     | XTree _, XErr e => XErr e
@@ -222,19 +238,13 @@ Section Expand.
     Variable r : rid.
 
     Fixpoint check_tree (rw : rewrite) (t : tree) : bool :=
-      let kids := fix kids (l : list rewrite) (ts : list tree) : bool :=
-        match l, ts with
-        | [], [] => true
-        | x :: l', t :: ts' => check_tree x t && kids l' ts'
-        | _, _ => false
-        end in
       match rw, t with
       | This, TUsers n us => nodename_eqb n (o, r) && users_ok all o r us
       | Computed r', TComputed n u => nodename_eqb n (o, r) && nodename_eqb u (o, r')
       | TTU ts c, TTupleToUserset n u cs =>
           nodename_eqb n (o, r) && nodename_eqb u (o, ts) && computed_ok all o ts c cs
-      | Union l, TUnion n ts => nodename_eqb n (o, r) && kids l ts
-      | Inter l, TInter n ts => nodename_eqb n (o, r) && kids l ts
+      | Union l, TUnion n ts => nodename_eqb n (o, r) && kids_check check_tree l ts
+      | Inter l, TInter n ts => nodename_eqb n (o, r) && kids_check check_tree l ts
       | Diff b s, TDiff n tb tsb => nodename_eqb n (o, r) && check_tree b tb && check_tree s tsb
       | _, _ => false
       end.
